@@ -38,7 +38,8 @@ def rule_a(ctx):
     ctx.rule(rid, "ids: every write to next_id is old+1 on a local clone; the returned SigId carries the pre-increment value and the signal "
                   "parameter; an id is returned only on the path that published that clone", floor=4)
     ws = next_id_writes(F)
-    ctx.check(len({i.defp for (i, _, _, _) in ws}) == 1 and ws[0][0].defp == "signal_hook_registry::register_unchecked_impl", rid, "next_id:single-writer",
+    regdefs = {r.defp for r in _register_impls(F)}
+    ctx.check({i.defp for (i, _, _, _) in ws} <= regdefs, rid, "next_id:single-writer",
               "next_id is written by the registering function only (never on unregister)", None, sorted({i.name for (i, _, _, _) in ws}))
     for r in _register_impls(F):
         ctx.fn(r)
